@@ -42,6 +42,58 @@ STREAMING = ['select', 'where', 'select_many', 'skip', 'limit', 'take_while',
              'index_where', 'join', 'limit_iterable', 'flatten']
 
 
+def _own_level(fnode):
+    """AST nodes of a function that run when IT runs (not the bodies of
+    nested defs, lambdas and generator expressions)."""
+    out, todo = [], list(fnode.body)
+    while todo:
+        n = todo.pop()
+        if isinstance(n, (ast.FunctionDef, ast.Lambda, ast.GeneratorExp,
+                          ast.AsyncFunctionDef)):
+            continue
+        out.append(n)
+        for ch in ast.iter_child_nodes(n):
+            if isinstance(ch, (ast.FunctionDef, ast.Lambda,
+                               ast.GeneratorExp, ast.AsyncFunctionDef)):
+                if isinstance(ch, ast.GeneratorExp):
+                    # (its outermost iterable is evaluated at once - but
+                    # only evaluated, not advanced)
+                    pass
+                continue
+            todo.append(ch)
+    return out
+
+
+def _call_time_pulls(fnode, own, src):
+    tainted = set(src)
+    changed = True
+    while changed:
+        changed = False
+        for n in own:
+            if isinstance(n, ast.Assign) and len(n.targets) == 1 and \
+                    isinstance(n.targets[0], ast.Name) and \
+                    isinstance(n.value, ast.Call) and isinstance(
+                        n.value.func, ast.Name) and n.value.func.id in (
+                            'iter', 'enumerate', 'zip', 'map', 'filter',
+                            'reversed') and any(
+                        isinstance(a, ast.Name) and a.id in tainted
+                        for a in n.value.args) and \
+                    n.targets[0].id not in tainted:
+                tainted.add(n.targets[0].id)
+                changed = True
+    out = []
+    for n in own:
+        if isinstance(n, ast.Call) and isinstance(n.func, ast.Name) and \
+                n.func.id == 'next' and n.args and isinstance(
+                    n.args[0], ast.Name) and n.args[0].id in tainted:
+            out.append((n.lineno, 'next(%s) at call time' % n.args[0].id))
+        if isinstance(n, (ast.For, ast.comprehension)) and isinstance(
+                n.iter, ast.Name) and n.iter.id in tainted:
+            out.append((getattr(n, 'lineno', getattr(n.iter, 'lineno', 0)),
+                        'loop over %s at call time' % n.iter.id))
+    return sorted(set(out))
+
+
 def flow_unit(ctx):
     f = sigflow.facts(ctx)
     out, seen = [], set()
@@ -75,6 +127,22 @@ def flow_unit(ctx):
             function='%s.%s' % (fd['module'], q), line=fd['line'],
             text='the source %s never reaches an eager consumer' % src,
             detail='; '.join('line %d: %s' % r for r in res) or None))
+        # ... and nothing is pulled when the operator is merely CALLED: a
+        # payload that is not a generator itself (it returns one) runs its
+        # own statements at call time - none of them may advance the source
+        if q in ('first', 'any_', 'all_', 'index_of', 'index_where'):
+            continue        # terminal operators: their result IS a pull
+        own = _own_level(node)
+        is_gen = any(isinstance(n, (ast.Yield, ast.YieldFrom)) for n in own)
+        pulls = [] if is_gen else _call_time_pulls(node, own, src)
+        out.append(core.ob(
+            name.replace('streaming:', 'streaming-call-time:'),
+            'failed' if pulls else 'proved', 'flow', 'sigflow', 0.0,
+            function='%s.%s' % (fd['module'], q), line=fd['line'],
+            text='calling the operator pulls nothing from %s (the first '
+                 'element is pulled when the first result is asked for)'
+                 % src,
+            detail='; '.join('line %d: %s' % r for r in pulls) or None))
     missing = [s for s in STREAMING if s not in {q for _, q in seen}
                and s not in ('limit_iterable',)]
     out.append(core.ob('streaming:inventory',
